@@ -155,6 +155,11 @@ pub fn run_pty_case(case: &Case, env: &Env, long_sleep: bool) -> CaseOut {
                     if let Some(frac) = head.rsplit(' ').next() {
                         if let Some((a, b)) = frac.split_once('/') {
                             if let (Ok(a), Ok(b)) = (a.parse::<usize>(), b.parse::<usize>()) {
+                                // (a frame drawn by the status thread before the first update of the build phase -- the
+                                // manifest is still being loaded -- shows 0/0: the property speaks of updates within a phase)
+                                if (a, b) == (0, 0) {
+                                    continue;
+                                }
                                 if b != n || a > b {
                                     out.viols.push(Viol::new("C19", "displayed-progress", format!("progress line shows {}/{} done for a build of {} steps: {:?}", a, b, n, line.chars().take(120).collect::<String>())));
                                     break;
